@@ -1,12 +1,88 @@
 /-
-C23 — Receive coalescing is transparent to the tun device. (theorems follow; bootstrap stub)
+C23 — Receive coalescing is transparent to the tun device.
+
+"For any batch of decrypted packets, what reaches the tun device, after segmenting each offloaded
+superpacket the way the kernel does, is exactly the batch's packets: none lost, duplicated or altered
+beyond fields the kernel rewrites (lengths, checksums, and IPv4 IDs that carry no meaning). Packets of
+each flow come out in the sender's transmission order for each tunnel session (pure TCP ACKs may trail
+later data), and every offloaded write has the geometry the kernel accepts."
+
+Model: `Nebula.Coalesce` (overlay/batch: MultiCoalescer, TCPCoalescer, UDPCoalescer, Passthrough, after
+the F13 `fix:` commit). Spec: `Nebula.Spec.KernelGSO` (reference virtio TSO/USO segmenter `kernelSeg`,
+`mask`, `geometryOk`). All theorems hold for every list of staged packets (no bound on sizes, flows,
+flags, lengths) whose `(Protocol, IPHdrLen, FragAny)` triple agrees with the packet bytes the way
+`newPacket` computes it (`ppConsistent`; checked against the real `newPacket` on every `c` op of the
+correspondence stream).
 -/
-import Nebula.Model.Coalesce
-import Nebula.Spec.KernelGSO
+import Nebula.Lemmas.CoalesceMulti
 
 namespace Nebula.Props.C23
-open Nebula.Coalesce
+open Nebula.Coalesce Nebula.Lemmas.Coalesce
+open Nebula.Spec.KernelGSO (mask kernelSeg ppConsistent)
 
-example : (dispatchAll true true []).flush = [] := by decide
+/-- `I_lock`: after replaying any packets into the lanes, `lastSlot` (the cached slot pointer of
+`TCPCoalescer`/`UDPCoalescer`) points at a slot that `openSlots` maps its flow key to — the cache is in
+lockstep with the map, so the fast path and the map lookup always agree. -/
+theorem I_lock (tso uso : Bool) (l : List Staged) (hc : Consistent l) :
+    ∀ lane, lane = (dispatchAll tso uso l).tcp ∨ lane = (dispatchAll tso uso l).udp →
+      ∀ i, lane.lastSlot = some i → ∃ s, lane.slots[i]? = some s ∧ omLookup lane.openSlots s.fk = some i := by
+  have h := (dispatchAll_inv tso uso l hc).1
+  intro lane hl
+  rcases hl with e | e <;> subst e
+  · exact h.tcp.lock
+  · exact h.udp.lock
+
+/-- `I_geom`: every coalescing slot of either lane holds between 1 and 64 payload fragments, none empty,
+none longer than `gsoSize`, all but the last exactly `gsoSize`, `totalPay` is their total size, and header
+plus payload fit in 65535 bytes. -/
+theorem I_geom (tso uso : Bool) (l : List Staged) (hc : Consistent l) :
+    ∀ s, (s ∈ (dispatchAll tso uso l).tcp.slots ∨ s ∈ (dispatchAll tso uso l).udp.slots) → s.verbatim = false →
+      1 ≤ s.numSeg ∧ s.numSeg ≤ 64 ∧ s.payIovs.length = s.numSeg ∧
+      (∀ (i : Nat) (x : Bytes), s.payIovs[i]? = some x →
+        0 < x.length ∧ x.length ≤ s.gsoSize ∧ (i + 1 < s.payIovs.length → x.length = s.gsoSize)) ∧
+      s.totalPay = (s.payIovs.map List.length).sum ∧ s.hdrLen + s.totalPay ≤ 65535 := by
+  have h := (dispatchAll_inv tso uso l hc).1
+  intro s hs hv
+  have geo : ∀ tcp, CoalOK tcp s → _ := fun tcp hk =>
+    (⟨by have := hk.numSeg; have : s.ghost.length ≠ 0 := fun e => hk.ne (List.eq_nil_of_length_eq_zero e); omega,
+      hk.segs, by rw [hk.npay, hk.numSeg], fun i x hx => pay_len hk hx, hk.total, hk.cap⟩ :
+      1 ≤ s.numSeg ∧ s.numSeg ≤ 64 ∧ s.payIovs.length = s.numSeg ∧
+      (∀ (i : Nat) (x : Bytes), s.payIovs[i]? = some x →
+        0 < x.length ∧ x.length ≤ s.gsoSize ∧ (i + 1 < s.payIovs.length → x.length = s.gsoSize)) ∧
+      s.totalPay = (s.payIovs.map List.length).sum ∧ s.hdrLen + s.totalPay ≤ 65535)
+  rcases hs with hs | hs
+  · exact geo true ((h.tcp.ok s hs).coal hv)
+  · exact geo false ((h.udp.ok s hs).coal hv)
+
+/-- `transparent` (UDP and TCP lanes, passthrough, any capability set, ANY dispatch order): segmenting
+what `Flush` writes the way the kernel does yields, up to `mask`, a permutation of the staged packets —
+nothing lost, duplicated or altered. -/
+theorem transparent (tso uso : Bool) (l : List Staged) (hc : Consistent l) :
+    (((dispatchAll tso uso l).flush.flatMap kernelSeg).map mask).Perm ((l.map (·.pkt)).map mask) := by
+  obtain ⟨hi, hp⟩ := dispatchAll_inv tso uso l hc
+  rw [multiFlush_seg hi]
+  exact hp.map mask
+
+/-- `transparent` for `Commit`* ; `Flush` as written (sort by `(epoch, counter)`, then replay). -/
+theorem transparent_flush (tso uso : Bool) (staged : List Staged) (hc : Consistent staged) :
+    (((flushBatch tso uso staged).flatMap kernelSeg).map mask).Perm ((staged.map (·.pkt)).map mask) := by
+  have hperm := List.mergeSort_perm staged stagedLe
+  have hc' : Consistent (staged.mergeSort stagedLe) := fun sp hsp => hc sp (hperm.mem_iff.mp hsp)
+  exact (transparent tso uso _ hc').trans ((hperm.map (·.pkt)).map mask)
+
+/-- Stronger than a permutation: within the lanes the *sequence* of delivered packets is exactly the
+sequence of packets held by the slots (slot creation order, arrival order inside a slot). -/
+theorem delivered_sequence (tso uso : Bool) (l : List Staged) (hc : Consistent l) :
+    ((dispatchAll tso uso l).flush.flatMap kernelSeg).map mask = (multiPkts (dispatchAll tso uso l)).map mask :=
+  multiFlush_seg (dispatchAll_inv tso uso l hc).1
+
+-- non-vacuity: a consistent two-datagram UDP batch that is actually coalesced into one superpacket
+example : Consistent exBatch := by
+  intro sp hsp
+  simp only [exBatch, List.mem_cons, List.not_mem_nil, or_false] at hsp
+  rcases hsp with rfl | rfl <;> decide
+example : ((dispatchAll true true exBatch).flush).length = 1 := by decide
+example : (((dispatchAll true true exBatch).flush.flatMap kernelSeg).map mask) = [mask udpA, mask udpB] := by
+  decide
 
 end Nebula.Props.C23
